@@ -7,6 +7,7 @@
 -/
 import Kapture.Base.DriverCore
 import Kapture.Model.C01Typed
+import Kapture.Model.C01Points
 
 open Lean Kapture Kapture.Driver Kapture.Csv Kapture.C01 Kapture.Gen.RecordSchemas
 
@@ -133,6 +134,14 @@ def handle (j : Json) : Json :=
     let kind := ((field? j "kind").bind getStr?).getD ""
     let file := ((field? j "file").bind getStr?).getD ""
     Json.mkObj [("decoded", Json.arr (rows.map (decodeRow kind file)).toArray)]
+  | some "points" =>
+    -- the number format of points3d.txt: is each written token a nearest count of 10^-d units of the exact value?
+    let items := (((field? j "items").bind getArr?).getD #[]).toList
+    Json.mkObj [("decimals", intJson (Int.ofNat Gen.Headers.pointsDecimals)),
+      ("nearest", Json.arr (items.map (fun it =>
+        match (it.getArrVal? 0).toOption.bind getRat?, (it.getArrVal? 1).toOption.bind getStr? with
+        | some x, some t => Json.bool (tokenNearest x t.toList)
+        | _, _ => Json.bool false)).toArray)]
   | some "spaces" => Json.mkObj [("codes", Json.arr (pySpaceCodes.map (fun (n : Nat) => intJson (Int.ofNat n))).toArray)]
   | some "int" =>
     Json.mkObj [("ints", Json.arr ((strsOf ((field? j "tokens").getD Json.null)).map (fun t =>
